@@ -1,9 +1,25 @@
 /* vercheck: calls the runtime's version gate.  argv[1] = "check"|"require"|"checkseq", argv[2] = version (checkseq: argv[2..] versions), argv[3] = model
  * exit 0 = returned normally; abort (SIGABRT) = refused by the library. */
+#include <pthread.h>
 #include <stdio.h>
+#include <stdlib.h>
 #include <string.h>
 #include <unistd.h>
 #include "ovni.h"
+
+static int par_rounds, par_nv;
+static char **par_v;
+static pthread_barrier_t par_bar;
+
+static void *
+par_body(void *arg)
+{
+	long me = (long) arg;
+	pthread_barrier_wait(&par_bar);
+	for (int r = 0; r < par_rounds; r++)
+		ovni_version_check_str(par_v[(r + me) % par_nv]);
+	return NULL;
+}
 
 int
 main(int argc, char *argv[])
@@ -22,6 +38,22 @@ main(int argc, char *argv[])
 			printf("returned %d\n", i - 2);
 			fflush(stdout);
 		}
+		return 0;
+	}
+	if (strcmp(argv[1], "checkpar") == 0) {
+		/* argv[2] threads, argv[3] rounds, argv[4..] versions (all compatible): every thread
+		 * checks them over and over, all threads at the same time */
+		int nth = atoi(argv[2]);
+		par_rounds = atoi(argv[3]);
+		par_nv = argc - 4;
+		par_v = argv + 4;
+		pthread_t th[64];
+		pthread_barrier_init(&par_bar, NULL, (unsigned) nth);
+		for (int i = 0; i < nth && i < 64; i++)
+			pthread_create(&th[i], NULL, par_body, (void *) (long) i);
+		for (int i = 0; i < nth && i < 64; i++)
+			pthread_join(th[i], NULL);
+		printf("returned\n");
 		return 0;
 	}
 	if (strcmp(argv[1], "require") == 0) {
